@@ -119,6 +119,9 @@ func LookupWellKnown(ctx context.Context, serverNameType spec.ServerName) (*Well
 	if err != nil {
 		return nil, err
 	}
+	// CacheExpiresAt has no JSON tag, so a "CacheExpiresAt" member of the
+	// body would overwrite it: the expiry comes from the headers only.
+	wellKnownResponse.CacheExpiresAt = expiryTimestamp
 
 	if wellKnownResponse.NewAddress == "" {
 		return nil, errors.New("No m.server key found in well-known response")
